@@ -15,6 +15,14 @@ Ops (every line is self-contained; `-` = empty list / absent coin, `%` = empty s
 <market> = ex=0|1 ao=0|1 us=0|1 ac=0|1 caf= cbf= ccf= ssf= bsf= (coins) ssr= bsr= (ratios
 `pd:pa:fd:fa|…`) ra= rb= rc= (required attributes as requested at market creation).
 <message> = assets= price= sflat= cfee= fees= amount=.
+User fills with `ids=`: the full admission.  `orders=<o>|<o>…` are resting orders created, in this
+order (ids 1, 2, …), right after the market's creation by the real CreateBid / CreateAsk:
+`<o>` = `<b|a><B|A><1|2>:<assets>:<price>` (side; owner B = another account, A = the filler
+itself; market 1 = the line's market, 2 = another market); `ids=1|2|…` the ids the fill names;
+a `close` among the `post=` messages cancels the orders of market 1;
+`total=<coins>` the total assets of a fill of bids (`price=` is the total price of a fill of
+asks); `bal=` the filler's balance.  Without `ids=` the line is a gate line (an absent id is
+named and the outcome observed up to the order lookup).
 Optional history around the creation of the market (all sent by the governance authority for
 the market's id): `pre=<steps>` before the market is created (with `ex=0`: for an id that
 never becomes a market), `post=<steps>` after it.  `<steps>` = `step;step;…` with
@@ -173,6 +181,57 @@ def parseCommit (ws : List String) : Option CommitMsg := do
   let cfee ← getCoin ws "cfee"
   return { marketId := 1, amount := amount, cfee := cfee }
 
+def fillerName : String := "A"
+
+def parseOrder? (idx : Nat) (s : String) : Option Order :=
+  match s.splitOn ":" with
+  | [hd, assets, price] =>
+    match hd.toList, parseCoin? assets, parseCoin? price with
+    | [side, owner, mkt], some a, some p =>
+      if (side = 'b' || side = 'a') && (owner = 'A' || owner = 'B') && (mkt = '1' || mkt = '2') then
+        some { id := idx + 1, isBid := side = 'b', marketId := if mkt = '1' then 1 else 2,
+               owner := String.singleton owner, assets := a, price := p }
+      else none
+    | _, _, _ => none
+  | _ => none
+
+def parseOrdersFrom (idx : Nat) : List String → Option (List Order)
+  | [] => some []
+  | s :: rest => do
+    let o ← parseOrder? idx s
+    let os ← parseOrdersFrom (idx + 1) rest
+    return o :: os
+
+/-- the resting orders at the time of the fill: created right after the market (before the
+`post=` messages), cancelled by a later MsgGovCloseMarket -/
+def getBook (ws : List String) : Option (List Order) := do
+  let book ← parseOrdersFrom 0 (splitList ((kv ws "orders").getD "-"))
+  let post ← getSteps ws "post"
+  return ordersAfter post 1 book
+
+def getIds (ws : List String) : Option (List Nat) :=
+  (splitList ((kv ws "ids").getD "-")).mapM parseNat?
+
+def parseFillBids (ws : List String) : Option FillBidsMsg := do
+  let total ← getCoins ws "total"
+  let ids ← getIds ws
+  let sflat ← getCoin ws "sflat"
+  let cfee ← getCoin ws "cfee"
+  return { marketId := 1, totalAssets := total, ids := ids, sflat := sflat, cfee := cfee }
+
+def parseFillAsks (ws : List String) : Option FillAsksMsg := do
+  let price ← (kv ws "price") >>= parseCoin?
+  let ids ← getIds ws
+  let fees ← getCoins ws "fees"
+  let cfee ← getCoin ws "cfee"
+  return { marketId := 1, totalPrice := price, ids := ids, fees := fees, cfee := cfee }
+
+def showF : Except FillRej Unit → String
+  | .ok _ => "ok"
+  | .error e => e.toString
+
+def hasIds (ws : List String) : Bool := (kv ws "ids").isSome
+
 def flatKind (m : Market) : String → Option (List Coin)
   | "ask" => some m.createAskFlat
   | "bid" => some m.createBidFlat
@@ -232,10 +291,20 @@ def run (ws : List String) : String :=
     | some p, some m => showR (commitFunds p.store p.attrs p.bal m)
     | _, _ => "bad-op"
   | "fillbids" :: rest =>
+    if hasIds rest then
+      match parseCommon rest, parseFillBids rest, getBook rest with
+      | some p, some m, some book => showF (fillBids p.store.view p.attrs book fillerName p.bal m)
+      | _, _, _ => "bad-op"
+    else
     match parseCommon rest, getCoin rest "cfee", getCoin rest "sflat" with
     | some p, some cfee, some sflat => showR (fillBidsGate p.store.view p.attrs cfee sflat)
     | _, _, _ => "bad-op"
   | "fillasks" :: rest =>
+    if hasIds rest then
+      match parseCommon rest, parseFillAsks rest, getBook rest with
+      | some p, some m, some book => showF (fillAsks p.store.view p.attrs book fillerName p.bal m)
+      | _, _, _ => "bad-op"
+    else
     match parseCommon rest, getCoin rest "cfee", (kv rest "price") >>= parseCoin?, getCoins rest "fees" with
     | some p, some cfee, some price, some fees =>
       showR (fillAsksGate p.store.view p.attrs cfee price fees)
@@ -375,6 +444,27 @@ def check (ws : List String) (impl : String) : String :=
            ("funds", decide (FundsOk p.bal m.cfee m.amount))] normOnly
     | _, _ => "-"
   | "fillbids" :: rest =>
+    if hasIds rest then
+      match parseCommon rest, parseFillBids rest, getBook rest with
+      | some p, some m, some book =>
+        match p.hist.configInForce with
+        | none => verdictAdmit "fillbids" impl true [("invalid", m.valid), ("market", false)] false
+        | some c =>
+          let prices := namedPrices book m.ids
+          let g := marketFlatsWf c && ratiosWfB c.sellerRatios &&
+            (sumDenoms prices).all (fun d => decide (0 ≤ Coins.amountOf prices d) &&
+              decide (RatiosFit c.sellerRatios (d, Coins.amountOf prices d)))
+          let oo := decide (FillBidsOrdersOk (some c) book fillerName m)
+          verdictAdmit "fillbids" impl g
+            [("invalid", m.valid), ("closed", c.acceptingOrders), ("usersettle", c.userSettle),
+             ("attr", decide (AttrsOk c.reqAsk p.attrs)),
+             ("fee", decide (FlatFeeOk c.createAskFlat m.cfee) && decide (FlatFeeOk c.sellerFlat m.sflat)),
+             ("order", decide (∀ id ∈ m.ids, Fillable book m.marketId true fillerName id)),
+             ("total", decide (TotalsEq (namedAssets book m.ids) m.totalAssets)),
+             ("ratio", oo),
+             ("funds", decide (FillBidsFunded (some c) book p.bal m))] false
+      | _, _, _ => "-"
+    else
     match parseCommon rest, getCoin rest "cfee", getCoin rest "sflat" with
     | some p, some cfee, some sflat =>
       match p.hist.configInForce with
@@ -386,6 +476,27 @@ def check (ws : List String) (impl : String) : String :=
            ("fee", decide (FlatFeeOk c.createAskFlat cfee) && decide (FlatFeeOk c.sellerFlat sflat))] false
     | _, _, _ => "-"
   | "fillasks" :: rest =>
+    if hasIds rest then
+      match parseCommon rest, parseFillAsks rest, getBook rest with
+      | some p, some m, some book =>
+        match p.hist.configInForce with
+        | none => verdictAdmit "fillasks" impl true [("invalid", m.valid), ("market", false)] false
+        | some c =>
+          let named := namedOrders book m.ids
+          let g := marketFlatsWf c && ratiosWfB c.sellerRatios &&
+            (!m.valid || buyerWfB c.buyerFlat c.buyerRatios m.totalPrice) &&
+            named.all (fun o => decide (0 ≤ o.price.2) && decide (RatiosFit c.sellerRatios o.price))
+          verdictAdmit "fillasks" impl g
+            [("invalid", m.valid), ("closed", c.acceptingOrders), ("usersettle", c.userSettle),
+             ("attr", decide (AttrsOk c.reqBid p.attrs)),
+             ("fee", decide (FlatFeeOk c.createBidFlat m.cfee) &&
+                     decide (BuyerFeeOk c.buyerFlat c.buyerRatios m.totalPrice m.fees)),
+             ("order", decide (∀ id ∈ m.ids, Fillable book m.marketId false fillerName id)),
+             ("total", decide (TotalsEq (namedPrices book m.ids) [m.totalPrice])),
+             ("ratio", decide (FillAsksOrdersOk (some c) book fillerName m)),
+             ("funds", decide (FillAsksFunded book p.bal m))] false
+      | _, _, _ => "-"
+    else
     match parseCommon rest, getCoin rest "cfee", (kv rest "price") >>= parseCoin?, getCoins rest "fees" with
     | some p, some cfee, some price, some fees =>
       match p.hist.configInForce with
